@@ -193,6 +193,7 @@ func runC18(e *Env) {
 	cfg.PerWriter = 1 + e.P(5)
 	cfg.StallSender = e.P(4) != 3
 	cfg.ExecDelay = e.P(2) == 1
+	cfg.BigSizes = e.P(4) == 3
 	if e.P(3) == 2 {
 		cfg.CloseMode = 2
 		cfg.Closers = 1
